@@ -299,7 +299,7 @@ func byKind(k int, name string) Def {
 var enumBases = []string{"byte", "uint8", "uint16", "int16", "uint32", "int32", "uint64", "int64"}
 
 // nSingles is the number of single-definition cases of Case.
-const nSingles = 45
+const nSingles = 46
 
 // NCases is the number of schema cases.
 const NCases = nSingles + nKinds*nKinds
@@ -403,6 +403,16 @@ func Case(i int) (defs []Def, docs bool) {
 			{Kind: "enum", Name: "E", Base: "int16", Opts: []Opt{{Name: "A", Lit: []byte("-0x10"), S: -16}, {Name: "B", Lit: []byte("0x7fff"), S: 0x7fff}}},
 			{Kind: "enum", Name: "F", Base: "int64", Opts: []Opt{{Name: "C", Lit: []byte("-0x8000000000000000"), S: -0x8000000000000000}, {Name: "D", Lit: []byte("-1"), S: -1}}},
 		}, false
+	case 45:
+		// several tagged fields in one record (each tag belongs to its own field)
+		symOn = false
+		st := structPlain("S")
+		st.Fields[0].Doc = "[tag(json:\"first" + printable(1) + "\")]"
+		st.Fields[1].Doc = "[tag(json:\"second,omitempty\")]"
+		ms := messagePlain("M")
+		ms.Fields[0].Doc = "[tag(db:\"a\")]"
+		ms.Fields[1].Doc = "[tag(db:\"b\")]"
+		return []Def{st, ms}, true
 	case 40:
 		return []Def{unionDocs("U")}, true
 	case 41:
